@@ -28,6 +28,12 @@ func quiesce(t *rapid.T, w *mach.World, rec *mach.Rec) {
 	w.ReleaseAll()
 
 	for _, s := range w.FreeSelected(false) {
+		// The property quantifies over the observer's own flushes, not over changes it makes itself: only passive
+		// sessions are judged (a session's own in-line changes may overtake older queued ones; see DESIGN.md).
+		if !s.Passive {
+			continue
+		}
+
 		w.Noop(s)
 
 		diff, err := w.QuiescentDiff(s)
@@ -61,6 +67,7 @@ func run(t *rapid.T, deterministic bool) {
 	nBoxes := rapid.IntRange(1, 3).Draw(t, "nBoxes")
 	cfg := mach.Config{
 		NSess:         rapid.IntRange(2, 4).Draw(t, "nSess"),
+		NPassive:      1,
 		Boxes:         []string{"INBOX", "A", "B"}[:nBoxes],
 		Deterministic: deterministic,
 		Prefill:       3,
@@ -77,14 +84,7 @@ func run(t *rapid.T, deterministic bool) {
 	rec := &mach.Rec{}
 	rec.Op("cfg sess=%d boxes=%d det=%v bulk=%v", cfg.NSess, nBoxes, deterministic, cfg.Opts.IdleBulk)
 
-	for _, s := range w.S {
-		box := w.PickBox(t)
-		if r := s.Select(box, rapid.IntRange(0, 5).Draw(t, "ro") == 0); !r.OK() {
-			t.Fatalf("select: %v", r)
-		}
-
-		rec.Op("%s select %s", s.Name, box)
-	}
+	w.SelectAll(t, rec, 6)
 
 	t.Repeat(w.Actions(rec, mach.Hooks{
 		Weights: map[string]int{"store": 2, "release": 2, "connFlags": 1, "connBoxes": 1, "connCreate": 1},
@@ -184,5 +184,68 @@ func TestRegress_PendingExistsThenFlagAndRemoval(t *testing.T) {
 
 	if len(view) != len(fresh) || len(view) != 1 || !imapc.SameFlags(imapc.WithoutFlag(view[0].Flags, `\recent`), fresh[0].Flags) {
 		t.Fatalf("C02 violated: observer sees %v, a new session sees %v\n%s", view, fresh, b.Hist)
+	}
+}
+
+// known C02-stale-update-after-select: an addition queued before the session's SELECT is applied to the snapshot taken
+// by that SELECT, after the session itself moved the message away.
+func TestKnown_C02_stale_update_after_select(t *testing.T) {
+	b, err := bed.Start(bed.Options{}, bed.UserSpec{Name: "user", Pass: "pass"})
+	if err != nil {
+		t.Fatal(err)
+	}
+
+	defer b.Destroy()
+
+	u := b.Users[0]
+
+	s, err := b.Login("s", u)
+	if err != nil {
+		t.Fatal(err)
+	}
+
+	defer s.Logout()
+
+	if r := s.Do("CREATE A"); !r.OK() {
+		t.Fatal(r)
+	}
+
+	s.GateClose()
+
+	boxA := u.Conn.MailboxByName("A", "/")
+	_, mc, _ := u.Conn.NewRemoteMessage(mach.Msg("g", ""), imap.NewFlagSet(), time.Unix(1600000000, 0), boxA.ID)
+	b.DeliverNow(u, imap.NewMessagesCreated(false, mc)) // queued for s, held back
+
+	s.Select("A", false)
+
+	if r := s.Do("MOVE 1 INBOX"); !r.OK() {
+		t.Fatal(r)
+	}
+
+	s.Release(-1)
+
+	if err := b.Barrier(u); err != nil {
+		t.Fatal(err)
+	}
+
+	s.Do("NOOP")
+
+	var view []bed.PMsg
+
+	if _, err := s.Probe(func(m []bed.PMsg) error { view = m; return nil }); err != nil {
+		t.Fatal(err)
+	}
+
+	fresh, _, _, _, err := b.FreshView(u, "A", false)
+	if err != nil {
+		t.Fatal(err)
+	}
+
+	if len(view) == len(fresh) {
+		return // no longer reproduces
+	}
+
+	if !kf.Report(mach.KfStaleAfterSelect) {
+		t.Fatalf("C02 violated (stale update after SELECT, not listed as known): session sees %v, a new session sees %v\n%s", view, fresh, b.Hist)
 	}
 }
